@@ -133,10 +133,15 @@ func (a AccountsAssetsVolumes) GetVolumes(account, asset string) *Volumes {
 			Input:  &big.Int{},
 			Output: &big.Int{},
 		}
+	} else if volumes, ok := assetsVolumes[asset]; !ok || volumes == nil {
+		return &Volumes{
+			Input:  &big.Int{},
+			Output: &big.Int{},
+		}
 	} else {
 		return &Volumes{
-			Input:  assetsVolumes[asset].Input,
-			Output: assetsVolumes[asset].Output,
+			Input:  volumes.Input,
+			Output: volumes.Output,
 		}
 	}
 }
@@ -166,7 +171,10 @@ func (a *AccountsAssetsVolumes) AddInput(account, asset string, input *big.Int) 
 			},
 		}
 	} else {
-		volumes := assetsVolumes[asset].CopyWithZerosIfNeeded()
+		volumes := NewEmptyVolumes()
+		if current, ok := assetsVolumes[asset]; ok && current != nil {
+			volumes = current.CopyWithZerosIfNeeded()
+		}
 		volumes.Input.Add(volumes.Input, input)
 		assetsVolumes[asset] = volumes
 	}
@@ -184,7 +192,10 @@ func (a *AccountsAssetsVolumes) AddOutput(account, asset string, output *big.Int
 			},
 		}
 	} else {
-		volumes := assetsVolumes[asset].CopyWithZerosIfNeeded()
+		volumes := NewEmptyVolumes()
+		if current, ok := assetsVolumes[asset]; ok && current != nil {
+			volumes = current.CopyWithZerosIfNeeded()
+		}
 		volumes.Output.Add(volumes.Output, output)
 		assetsVolumes[asset] = volumes
 	}
